@@ -6,5 +6,5 @@
 From SG Require Import Base.Prelude C11.Atomicity C11.AtomicityProofs.
 
 Lemma C11_error_implies_unchanged_refuted :
-  exists tr k, snd (run_request tr (Some k)) = RErr /\ committed (fst (run_request tr (Some k))) = true.
+  exists tr k, snd (run_request tr [k]) = RErr /\ committed (fst (run_request tr [k])) = true.
 Proof. exact posterr_reports_failure_after_commit. Qed.
